@@ -1148,6 +1148,7 @@ class TrigInfo:
             state_trig_notify_info = [None, None]
             state_false_time = None
             now = startup_time = None
+            time_pending = None
             check_state_expr_on_start = self.state_check_now or self.state_hold_false is not None
 
             while True:
@@ -1178,9 +1179,17 @@ class TrigInfo:
                     check_state_expr_on_start = False
                 else:
                     if self.time_trigger:
-                        time_next, time_next_adj = await TrigTime.timer_trigger_next(
-                            self.time_trigger, now, startup_time
-                        )
+                        if time_pending is not None and time_pending <= now:
+                            #
+                            # a notification was handled after (or right before) the trigger time was
+                            # reached, but before our own timeout for it: it is still due
+                            #
+                            time_next, time_next_adj = time_pending, now
+                        else:
+                            time_next, time_next_adj = await TrigTime.timer_trigger_next(
+                                self.time_trigger, now, startup_time
+                            )
+                        time_pending = time_next
                         _LOGGER.debug(
                             "trigger %s time_next = %s, now = %s",
                             self.name,
@@ -1212,6 +1221,7 @@ class TrigInfo:
                                     continue
                                 now = time_next
                                 if not state_trig_timeout:
+                                    time_pending = None
                                     notify_type = "time"
                                     notify_info = {
                                         "trigger_type": "time",
